@@ -34,6 +34,12 @@ NewTags(f, s, ev, s2, old) ==
     \cup (IF ev.a = "ConfigureFail" /\ ~SameValues(Apply(s, ev.D), s) THEN {"failed-configure"} ELSE {})
     \cup (IF ev.a = "ReconfigureFail" /\ ~SameValues(Apply(Sync(s, f), ev.D), s) THEN {"failed-reconfigure"} ELSE {})
     \cup (IF ev.a = "SetupFail" THEN {"failed-setup"} ELSE {})
+    \cup (IF sync /\ s2.lr # s.lr /\ s.lv \in s2.lr /\ s.lv # LevelDefault THEN {"range-kept"} ELSE {})
+    \cup (IF sync /\ s2.lr # s.lr /\ s.lv \notin s2.lr /\ s.lr \ s2.lr = {"2"} THEN {"range-fallback-min-raised"} ELSE {})
+    \cup (IF sync /\ s2.lr # s.lr /\ s.lv \notin s2.lr /\ s.lr \ s2.lr = {"8"} THEN {"range-fallback-max-lowered"} ELSE {})
+    \cup (IF ev.a = "ConfigureBad" /\ s.lr # f.lr THEN {"out-of-new-range-rejected"} ELSE {})
+    \cup (IF ev.a = "ConfigureBad" /\ s.lr = f.lr THEN {"out-of-range-rejected"} ELSE {})
+    \cup (IF ev.a = "Wipe" /\ ({"failed-configure", "out-of-new-range-rejected", "out-of-range-rejected"} \cap old) # {} THEN {"wipe-after-failed-configure"} ELSE {})
     \cup (IF ev.a = "Reconfigure" /\ (s.ch # f.ch \/ (s.x # None) # f.x) THEN {"reconfigure-after-edit"} ELSE {})
     \cup (IF ev.a = "Configure" /\ (s.ch # f.ch \/ (s.x # None) # f.x) THEN {"configure-after-edit"} ELSE {})
     \cup (IF ev.a \in {"Configure", "Reconfigure"} /\ "dl" \in DOMAIN ev.D /\ s.subdl # None THEN {"global-change-under-override"} ELSE {})
@@ -62,7 +68,9 @@ CreationDefault(h) == FileAt(h, CHOOSE n \in Creations(h) : \A m \in Creations(h
 Given(key) == LastGiven(hist, key)
 
 \* ---- state invariants: "the last value the user gave, else the default it was created with" ------------
-ValuesValid == st.exists => (st.v \in st.ch /\ st.dl \in DlValues /\ (st.subdl = None \/ st.subdl \in DlValues))
+ValuesValid == st.exists => (st.v \in st.ch /\ st.dl \in DlValues /\ (st.subdl = None \/ st.subdl \in DlValues) /\ st.lv \in st.lr)
+LevelIsLastGivenElseDefault ==
+    (st.exists /\ ~HasEdit(hist, {"range"})) => st.lv = (IF Given("level") = None THEN LevelDefault ELSE Given("level"))
 DlIsLastGivenElseDefault == st.exists => st.dl = (IF Given("dl") = None THEN DlDefault ELSE Given("dl"))
 PoptIsLastGivenElseCreationDefault ==
     (st.exists /\ ~HasEdit(hist, {"choices"})) => st.v = (IF Given("popt") = None THEN CreationDefault(hist) ELSE Given("popt"))
@@ -86,6 +94,11 @@ WipeIsFreshSetupWithWhatTheUserGave ==
 ChoiceChangeKeepsValidValue ==
     [][(Stepped /\ st.exists /\ st'.exists /\ st'.ch # st.ch /\ Last(hist').a # "Wipe" /\ "popt" \notin DOMAIN Last(hist').D)
           => st'.v = (IF st.v \in st'.ch THEN st.v ELSE file'.def)]_vars
+\* after an edited range has been processed the stored value lies inside it: kept when still inside, else the default
+RangeChangeKeepsValidValue ==
+    [][(Stepped /\ st.exists /\ st'.exists /\ st'.lr # st.lr /\ Last(hist').a # "Wipe" /\ "level" \notin DOMAIN Last(hist').D)
+          => st'.lv = (IF st.lv \in st'.lr THEN st.lv ELSE LevelDefault)]_vars
+ProcessedRangeIsTheDeclaredOne == [][(Stepped /\ Last(hist').a \in {"Reconfigure", "Wipe", "Setup"}) => st'.lr = file'.lr]_vars
 NewOptionGetsDefault ==
     [][(Stepped /\ st.exists /\ st.x = None /\ st'.x # None /\ Last(hist').a # "Wipe" /\ "xopt" \notin DOMAIN Last(hist').D)
           => st'.x = XDefault]_vars
@@ -97,7 +110,8 @@ OnlyAskedValuesChange ==
           /\ (st'.subdl # st.subdl => ("subdl" \in DOMAIN ev.D \/ (ev.a = "ConfigureU" /\ ev.k = "subdl")))
           /\ (st'.sp # st.sp => ("subpopt" \in DOMAIN ev.D \/ (ev.a = "ConfigureU" /\ ev.k = "subpopt")))
           /\ (st'.sf # st.sf => ("subflag" \in DOMAIN ev.D \/ (ev.a = "ConfigureU" /\ ev.k = "subflag")))
-          /\ (st'.v # st.v => ("popt" \in DOMAIN ev.D \/ st'.ch # st.ch))]_vars
+          /\ (st'.v # st.v => ("popt" \in DOMAIN ev.D \/ st'.ch # st.ch))
+          /\ (st'.lv # st.lv => ("level" \in DOMAIN ev.D \/ st'.lr # st.lr))]_vars
 
 \* ---- export of the complete histories (Mode = "replay") ----------------------------------------------
 EvJson(ev) == [a |-> ev.a, D |-> [k \in DOMAIN ev.D |-> ev.D[k]], k |-> ev.k, ok |-> ev.ok,
